@@ -1,9 +1,53 @@
-(* C13 — placeholder until the proofs land (the file must contain at least one theorem). *)
-From AV Require Import model.CFS_file proofs.CFS_file_proofs proofs.CFS_refine.
-Theorem C13_file_write_refines : forall mb, 1 <= mb -> forall fn p0 data,
-  WF fn -> hok fn p0 ->
-  let '(fn', p') := fn_write mb fn p0 data in
-  (content fn', off p') = AV.model.CFS_inst.s_write (content fn) (off p0) data /\ WF fn' /\ hok fn' p' /\
-  (forall q, hok fn q -> hok fn' q).
-Proof. exact write_hok. Qed.
-Print Assumptions C13_file_write_refines.
+(* C13 — concurrent use of a collection filesystem never loses or mixes file data.
+   The model (model/CFS_bg.v) makes every Keep write an explicit pending record that completes at an
+   arbitrary later point of the history, with the outcome the fake Keep chose; foreground operations
+   are the atomic steps the Go code performs under the node locks.  Property theorems only. *)
+From Coq Require Import List Arith Bool String.
+From AV Require Import model.CFS_file model.CFS_tree model.CFS_inst model.C08_run model.CFS_bg model.CFS_run
+  proofs.CFS_file_proofs proofs.CFS_refine proofs.CFS_tree_proofs proofs.CFS_bg_proofs proofs.CFS_hist_proofs.
+Import ListNotations.
+
+(* Whole histories: for EVERY interleaving of foreground operations (any number of handles/workers),
+   explicit flushes, saves, completions of background writes in any order and at any later time,
+   and Keep failure modes, the observations of the foreground operations are exactly those of the
+   plain byte-array filesystem applied to the foreground operations alone.  So slow, reordered or
+   failing background writes never change what readers see and never resurrect overwritten data,
+   and each file's content is the result of the operations issued on it, in order. *)
+Theorem C13_history_refines : forall mb, 1 <= mb -> forall tab es,
+  bouts mb tab (binit mb tab (fs_init (Conc mb))) es = run Spec (fs_init Spec) (fg_ops es).
+Proof.
+  intros mb Hmb tab es.
+  exact (bg_history_refines mb Hmb tab es (binit mb tab (fs_init (Conc mb))) (BInv_init mb Hmb tab)).
+Qed.
+Print Assumptions C13_history_refines.
+
+(* ... from every state satisfying the invariant, one event at a time *)
+Theorem C13_event_refines : forall mb, 1 <= mb -> forall tab st e, BInv mb st ->
+  let '(st', o) := bexec mb tab st e in
+  BInv mb st' /\ spec_effect e o (abs mb (fsys mb st)) (abs mb (fsys mb st')).
+Proof. exact bexec_ok. Qed.
+Print Assumptions C13_event_refines.
+
+(* the heart of it: when a background write returns - whenever, in whatever order, successfully or
+   not - and its result is installed after the Go code's re-validation, no file content changes *)
+Theorem C13_completion_invisible : forall mb, 1 <= mb -> forall st id, BInv mb st ->
+  abs mb (fsys mb (complete mb st id)) = abs mb (fsys mb st) /\ BInv mb (complete mb st id).
+Proof. exact complete_ok. Qed.
+Print Assumptions C13_completion_invisible.
+
+(* a Write that starts background writes (pruning inside the loop) is the plain write *)
+Theorem C13_write_with_pruning_refines : forall mb, 1 <= mb -> forall st h data, BInv mb st ->
+  let '(st', r) := b_write mb st h data in
+  h_write Spec (abs mb (fsys mb st)) h data = (abs mb (fsys mb st'), r) /\ BInv mb st'.
+Proof. exact b_write_sim. Qed.
+Print Assumptions C13_write_with_pruning_refines.
+
+Theorem C13_flush_invisible : forall mb, 1 <= mb -> forall st path short, BInv mb st ->
+  quiet mb st (fst (b_flush mb st path short)).
+Proof. exact b_flush_quiet. Qed.
+Print Assumptions C13_flush_invisible.
+
+(* the invariant's premises are satisfiable: the initial state is good *)
+Theorem C13_init_good : forall mb, 1 <= mb -> forall tab, BInv mb (binit mb tab (fs_init (Conc mb))).
+Proof. exact BInv_init. Qed.
+Print Assumptions C13_init_good.
